@@ -8,12 +8,13 @@ git -C /repo worktree add -q --detach "$W" HEAD || exit 2
 cd "$W" || exit 2
 if ! git apply "$P" 2>/dev/null && ! git apply -3 "$P" 2>/dev/null && ! patch -p1 -s -F3 < "$P"; then echo "RESULT patch=$P does-not-apply"; cd /; git -C /repo worktree remove --force "$W"; exit 2; fi
 t0=$(date +%s)
-out=$(cd /verif && VERIF_REPO="$W" timeout 3000 ./check "$c" ${TIER:-quick} -no-evidence "$@" 2>&1); rc=$?
+V="${VERIF_DIR:-/verif}"
+out=$(cd "$V" && VERIF_REPO="$W" timeout 3000 ./check "$c" ${TIER:-quick} -no-evidence "$@" 2>&1); rc=$?
 t1=$(date +%s)
 nv=$(echo "$out" | grep -c '^VIOLATION')
 echo "RESULT patch=$P check=$c $* exit=$rc violations=$nv secs=$((t1-t0))"
 echo "$out" | grep '^  violated:' | cut -c1-200 | head -3
 [ -n "$SHOW" ] && echo "$out" | tail -${SHOW}
 # replay files written for the changed tree are not evidence about /repo
-git -C /verif checkout -q -- evidence/replays 2>/dev/null; git -C /verif clean -fdq evidence/replays
+git -C "$V" checkout -q -- evidence/replays 2>/dev/null; git -C "$V" clean -fdq evidence/replays
 cd /; git -C /repo worktree remove --force "$W"
